@@ -975,9 +975,48 @@ fn add_jitter(delay: &u64) -> Duration {
 
     // Calculate jitter as a random value in the range of +/- MAX_JITTER_PERCENT of the delay.
     let max_jitter = delay.saturating_mul(MAX_JITTER_PERCENT * 2) / 100;
+    #[cfg(not(iroh_verif))]
     let jitter = rand::random::<u64>() % max_jitter;
+    #[cfg(iroh_verif)]
+    let jitter = verif_hooks::jitter_random(*delay) % max_jitter;
 
     Duration::from_millis(delay.saturating_sub(max_jitter / 2).saturating_add(jitter))
+}
+
+/// Verification hooks, compiled only with `--cfg iroh_verif`.
+#[cfg(iroh_verif)]
+pub mod verif_hooks {
+    use std::cell::RefCell;
+
+    use super::Duration;
+
+    type JitterSource = Box<dyn FnMut(u64) -> u64>;
+
+    thread_local! {
+        static JITTER_SOURCE: RefCell<Option<JitterSource>> = const { RefCell::new(None) };
+    }
+
+    /// Installs (`Some`) or removes (`None`) this thread's source of the random values drawn
+    /// by the stagger jitter.
+    ///
+    /// The source is called with the delay (in milliseconds) that is being jittered. Without
+    /// a source the values come from [`rand::random`], as in a normal build.
+    pub fn set_jitter_source(source: Option<Box<dyn FnMut(u64) -> u64>>) {
+        JITTER_SOURCE.with_borrow_mut(|s| *s = source);
+    }
+
+    /// Returns the random value used to jitter `delay`.
+    pub(super) fn jitter_random(delay: u64) -> u64 {
+        JITTER_SOURCE.with_borrow_mut(|s| match s {
+            Some(source) => source(delay),
+            None => rand::random::<u64>(),
+        })
+    }
+
+    /// Calls the stagger jitter computation for `delay` (in milliseconds).
+    pub fn add_jitter(delay: u64) -> Duration {
+        super::add_jitter(&delay)
+    }
 }
 
 #[cfg(test)]
